@@ -487,7 +487,7 @@ class DataSet:
             if i < 0 or i >= self._num_points:
                 del mask[i]
 
-        self._mask.update(mask)
+        self._mask.update({i: bool(flag) for i, flag in mask.items()})
 
     def get_mask(self) -> Dict[int, bool]:
         """
